@@ -216,7 +216,7 @@ func TestVerifC30Readers(t *testing.T) {
 		}
 		return
 	}
-	n := r.N(6000, 150000)
+	n := r.N(6000, 200000)
 	for ci := 0; ci < n; ci++ {
 		rng := r.Rand(ci)
 		// blob
